@@ -5637,6 +5637,11 @@ oid_parsing_done:
             break;
         case ATTRIB_ORG_UNIT:
             orgUnit = psMalloc(pool, sizeof(x509OrgUnit_t));
+            if (orgUnit == NULL)
+            {
+                psFree(stringOut, pool);
+                return PS_MEM_FAIL;
+            }
             orgUnit->name = stringOut;
             orgUnit->type = (short) stringType;
             orgUnit->len = llen;
